@@ -868,3 +868,10 @@ Proof.
   - apply (Hall' i c Hi). exact Hne.
   - apply (Hall i' c' Hi'). auto.
 Qed.
+
+Lemma ex_queue_facts :
+  exists q, t_new_queue ex_ff [3] = Ok q /\
+    t_pop_until ex_ff q 1 = Ok (Some 1, mk_cq [0] [1; 0; 2; 3], [3; 2; 1]) /\
+    t_pop_until ex_ff q 7 = Ok (None, mk_cq [] [1; 0; 2; 3], [3; 2; 1; 0]) /\
+    t_remove_ancestors ex_ff (mk_cq [3; 2; 1] [1; 2; 3]) [2] = Ok (mk_cq [3] [1; 2; 3]).
+Proof. eexists. split; [vm_compute; reflexivity|]. vm_compute. repeat split; reflexivity. Qed.
